@@ -85,10 +85,10 @@ class QuotedLiterals(_Sym):
     name = 'C05.strings'
     doc = 'a quoted literal evaluates to exactly the characters between its quotes'
     functions = ('grammarparser.lexer.t_STRING', 'grammarparser.parser.p_expression_string')
-    bounds = 'bodies of 0..3 (quick) / 0..4 (thorough) arbitrary code points other than the delimiting quote; both quote kinds'
+    bounds = 'bodies of 0..3 (quick) / 0..5 (thorough) arbitrary code points other than the delimiting quote; both quote kinds'
 
     def cases(self, tier):
-        return [{'q': q, 'len': n} for q in (34, 39) for n in range(0, 4 if tier == 'quick' else 5)]
+        return [{'q': q, 'len': n} for q in (34, 39) for n in range(0, 4 if tier == 'quick' else 6)]
 
     def build(self, e, p):
         if p['len'] == 0:
